@@ -162,8 +162,8 @@ MUTANTS = [
      "        idx = values.index(excess_of_interest)\n        selection_key = keys[idx]\n"),
     ("solve_root_returns_upper_when_both_negative", "C05", "utilities.py",
      "    elif kg_plus_sign == -1 and kg_minus_sign == -1:\n        x = lower", "    elif kg_plus_sign == -1 and kg_minus_sign == -1:\n        x = upper"),
-    ("midpoint_floor", "C05", "search_routines.py", "            c_idx = ceil((x_l_idx + x_r_idx) / 2)",
-     "            c_idx = (x_l_idx + x_r_idx) // 2 if x_r_idx - x_l_idx > 1 else x_r_idx"),
+    ("bisection_stops_one_step_early", "C05", "search_routines.py", "            if c_idx in (x_l_idx, x_r_idx):\n                break",
+     "            if c_idx in (x_l_idx, x_r_idx) or x_r_idx - x_l_idx <= 2:\n                break"),
     ("cap_ignored_in_nested_inner_search", "C02", "search_routines.py",
      "        if self.sim_params.max_boreholes is not None:\n            num_coordinates_in_each",
      "        if self.sim_params.max_boreholes is not None and not hasattr(self, 'coordinates_domain_nested'):\n            num_coordinates_in_each"),
